@@ -293,6 +293,10 @@ fn c03_full_partition_ignores_random_process() {
 }
 }
 
+// (not shipped: a `deliver_step` through `Link::deliver_messages` with a real `Host` refusing a TCP
+// segment - the refusal RST must not cross an explicitly partitioned direction - had no verdict in
+// 15 min, with symbolic or concrete addresses: `drain(..).collect()` of envelopes plus the reply's
+// enqueue make the in-flight deque's head symbolic and `make_contiguous` rotates it)
 // ---------------------------------------------------------------------------------------------------
 // C03-S2: imposing a partition drops exactly the in-flight messages of the affected direction(s);
 // C03-S3: explicit repair restores exactly the named direction(s).
